@@ -273,7 +273,7 @@ func planE1(prop, tier string) *e1Plan {
 		if thorough {
 			p.add(scopeImp(3, true), K2)
 		} else {
-			p.add(scopeImp(2, true), KN)
+			p.add(scopeImp(2, true), K2)
 		}
 		p.rule = "S-imp: all ordered selections of ≤k packages from the 23-package pool × source alias modes, one source file per import; oracle: import specs vs. go/types PkgName uses (exact, unique, canonical, valid identifiers, alias kept, sync iff methods), zero type errors"
 	case "C12":
